@@ -115,6 +115,8 @@ func init() {
 			out = append(out, Instance{Scenario: "c12_afterrebalance", Params: mustJSON(struct{}{}), Bound: 1, Shards: 8, Note: "the stop rule in the sessions after 1..2 real rebalances"})
 			out = append(out, Instance{Scenario: "c07_gate", Params: mustJSON(MitigationParams{Replicas: 1, TransientEnd: true, FailoverAtEnd: true}), Bound: 0, Shards: 8, Note: "rollback mitigation on (the default): after a transient end with a fail-over the re-opened vBucket keeps being streamed - an event covered by what the copies reported is delivered although no copy reports anything new"})
 			out = append(out, Instance{Scenario: "c07_gate", Params: mustJSON(MitigationParams{Replicas: 1, TransientEnd: true}), Bound: 0, Shards: 8})
+			out = append(out, Instance{Scenario: "c12_afterrebalance", Params: mustJSON(AfterRebParams{ReopenedBefore: true}), Bound: 0, Shards: 8, Note: "a vBucket that was re-opened after a transient end before the rebalance: closed and re-opened with the others"})
+			out = append(out, Instance{Scenario: "c12_afterrebalance", Params: mustJSON(AfterRebParams{ReopenedBefore: true, OldServer: true}), Bound: 0, Shards: 8})
 			out = append(out, Instance{Scenario: "c12_afterrebalance", Params: mustJSON(AfterRebParams{Dynamic: true}), Bound: 1, Shards: 8, Note: "dynamic membership (the re-open follows the close at once), every schedule within one deviation: the sessions after 1..2 rebalances stop exactly when their last vBucket has ended for good"})
 			out = append(out, Instance{Scenario: "c12_afterrebalance", Params: mustJSON(AfterRebParams{OldServer: true, Dynamic: true}), Bound: 1, Shards: 8, Note: "the same against a server below 5.5.0"})
 			out = append(out, Instance{Scenario: "c12_finite_rebalance", Params: mustJSON(struct{}{}), Bound: 0, Note: "a finite run across a rebalance with a slow application hook: the re-opened session's vBuckets end while the hook runs - the client still stops on its own"})
@@ -638,6 +640,9 @@ type AfterRebParams struct {
 	Dynamic bool `json:"dynamic"`
 	// CountOnly: only the active-stream figure is judged (the scenario registered under C16)
 	CountOnly bool `json:"count_only"`
+	// ReopenedBefore: one vBucket ended transiently and was re-opened by the library before the first rebalance:
+	// the close of the rebalance closes that stream like every other (else the next session's request is refused)
+	ReopenedBefore bool `json:"reopened_before"`
 }
 
 // c12_afterrebalance: the "stops on its own iff every assigned vBucket ended for good" rule in the sessions
@@ -698,6 +703,17 @@ func init() {
 				c.Vb[pvb].Opens = append(c.Vb[pvb].Opens, gocbcore.SimOpen{Kind: "err", Err: gocbcore.ErrTemporaryFailure})
 				c.EndStream(pvb, gocbcore.ErrDCPStreamTooSlow)
 				vrt.Sleep(200 * time.Millisecond) // the first attempt has failed, the retry sleeps
+			}
+			if p.ReopenedBefore {
+				rvb := uint16(vrt.Choose(3, true, "vbucket-re-opened-before-the-rebalance"))
+				c.EndStream(rvb, []error{gocbcore.ErrDCPStreamStateChanged, gocbcore.ErrSocketClosed}[vrt.Choose(2, true, "cause")])
+				vrt.Sleep(3 * time.Second)
+				vrt.Quiesce()
+				c.WaitIdle()
+				if !c.StreamOpen(rvb) {
+					vrt.Failf("harness: vb%d was not re-opened", rvb)
+					return
+				}
 			}
 			if p.CloseFault {
 				// one close-stream request of the FIRST rebalance fails: rejected, or the connection is gone
